@@ -100,9 +100,9 @@ def notifyE (s : State) : Option Fid → State
   | none => s
   | some g => { s with eq := rm s.eq g, pc := upd s.pc g (wake (s.pc g)) }
 
-/-- `_shared_queue.NotifyAll()` -/
-def notifyAllS (s : State) : State :=
-  { s with sq := [], pc := fun g => if g ∈ s.sq then wake (s.pc g) else s.pc g }
+/-- `if (b) _shared_queue.NotifyAll()` -/
+def notifyAllS (b : Bool) (s : State) : State :=
+  { s with sq := if b then [] else s.sq, pc := fun g => if b = true ∧ g ∈ s.sq then wake (s.pc g) else s.pc g }
 
 /-- `const bool unlock_shared = !_shared_queue.Empty() && (_exclusive_queue.Empty() || GetRandNumber(2) == 0)`;
     `coin` = "the draw was 0" (false when nothing was drawn) -/
@@ -113,15 +113,15 @@ def CoinOk (s : State) (coin : Bool) : Prop := (s.sq = [] ∨ s.eq = []) → coi
 
 instance (s : State) (c : Bool) : Decidable (CoinOk s c) := by unfold CoinOk; exact inferInstance
 
-/-- `unlock()`: `_occupied = false`, then one of the two notifications; the counters are not touched -/
+/-- `unlock()`: `_occupied = false`, then one of the two notifications (`w = none` when the shared queue is woken,
+    see `UnlockPick`); the counters are not touched -/
 def doUnlock (s : State) (f : Fid) (coin : Bool) (w : Option Fid) : State :=
-  let s1 := { s with occ := false, xh := s.xh.erase f }
-  if wakesShared s coin then notifyAllS s1 else notifyE s1 w
+  notifyE (notifyAllS (wakesShared s coin) { s with occ := false, xh := s.xh.erase f }) w
 
-/-- `unlock_shared()`: `_shared_owners_count--; if (_shared_owners_count == 0) { _occupied = false; _exclusive_queue.NotifyOne(); }` -/
+/-- `unlock_shared()`: `_shared_owners_count--; if (_shared_owners_count == 0) { _occupied = false; _exclusive_queue.NotifyOne(); }`
+    (`w = none` when the count stays positive, see `UnlockSPick`) -/
 def doUnlockS (s : State) (f : Fid) (w : Option Fid) : State :=
-  let s1 := { s with cnt := s.cnt - 1, sh := s.sh.erase f }
-  if s.cnt - 1 = 0 then notifyE { s1 with occ := false } w else s1
+  notifyE { s with cnt := s.cnt - 1, sh := s.sh.erase f, occ := if s.cnt - 1 = 0 then false else s.occ } w
 
 def UnlockPick (s : State) (coin : Bool) (w : Option Fid) : Prop :=
   if wakesShared s coin then w = none else PickOk s.eq w
